@@ -106,6 +106,25 @@ def shownRows (c : Computed) : List (Int × Nat) :=
 /-- the transaction → row dictionary after writing the In-Out sheet of `c` (`d0`: what it held before) -/
 def txRowFrom (d0 : List (Int × Nat)) (c : Computed) : List (Int × Nat) := (shownRows c).foldl (fun d p => setI p.1 p.2 d) d0
 
+/-- `d[k] = d.setdefault(k, 0) + v` on an insertion-ordered dictionary with decimal values -/
+def addS (l : List (String × Rat)) (k : String) (v : Rat) : List (String × Rat) :=
+  if l.any (·.1 == k) then l.map (fun p => if p.1 == k then (k, dadd p.2 v) else p) else l ++ [(k, dadd 0 v)]
+
+/-- per-holder totals of the Account Balances table: accumulated in balance-row order, shown sorted by holder -/
+def holderTotals (holderOf : Nat → String) (bals : List BalRow) : List (String × Rat) :=
+  sortBy (fun a b => decide (a.1 < b.1)) (bals.foldl (fun acc b => addS acc (holderOf b.acct) (ofUnits b.fin)) [])
+
+/-- association lists as the generator's dictionaries: lookup and insert-or-replace (insertion order kept) -/
+def aget {κ ν : Type} [BEq κ] (l : List (κ × ν)) (k : κ) : Option ν := (l.find? (·.1 == k)).map (·.2)
+def aset {κ ν : Type} [BEq κ] (l : List (κ × ν)) (k : κ) (v : ν) : List (κ × ν) :=
+  if l.any (·.1 == k) then l.map (fun p => if p.1 == k then (p.1, v) else p) else l ++ [(k, v)]
+
+/-- `__tax_sheet_year_2_row[(asset, year)] = row`, assigned whenever the year differs from that of the previous detail row
+    (`k` = index of the detail row, `prev` = year of the previous one, 0 before the first) -/
+def yearRowsFrom (asset : String) (dStart : Nat) : Nat → Int → List ((String × Int) × Nat) → List Int → List ((String × Int) × Nat)
+  | _, _, yr, [] => yr
+  | k, prev, yr, y :: t => yearRowsFrom asset dStart (k + 1) y (if y ≠ prev then aset yr (asset, y) (dStart + k + 1) else yr) t
+
 /-- everything `__generate_asset` lays out for one asset (no failure modelled here) -/
 structure AssetLayout where
   rows : List RRow
@@ -139,29 +158,20 @@ def layoutAsset (clearPerAsset : Bool) (holderOf : Nat → String) (period : Int
   let bRows := (List.range c.bals.length).zip c.bals |>.map fun (k, b) =>
     RRow.taxB c.asset (bStart + k + 1) b.acct (ofUnits b.acq) (ofUnits b.sent) (ofUnits b.recv) (ofUnits b.fin)
   -- per-holder totals in first-seen order, then sorted by holder
-  let totals := c.bals.foldl (fun (acc : List (String × Rat)) b =>
-    let h := holderOf b.acct
-    if acc.any (·.1 == h) then acc.map (fun p => if p.1 == h then (h, dadd p.2 (ofUnits b.fin)) else p)
-    else acc ++ [(h, dadd 0 (ofUnits b.fin))]) []
-  let totals := sortBy (fun a b => decide (a.1 < b.1)) totals
+  let totals := holderTotals holderOf c.bals
   let tStart := bStart + c.bals.length
   let tRows := (List.range totals.length).zip totals |>.map fun (k, (h, v)) => RRow.taxT c.asset (tStart + k + 1) h v
   let pRow := tStart + totals.length + 2 + 3
   let dStart := pRow + 1 + 2 + 3
   -- sheet capacity: MIN_ROWS + yearly + balances + holders + fractions rows (F10 repaired)
   let capacity := 40 + nY + c.bals.length + totals.length + c.fracs.length
-  let (dRows, yearRow, _) := ((List.range c.fracs.length).zip (c.fracs.zip c.fracRun)).foldl
-    (fun (acc : List RRow × List ((String × Int) × Nat) × Int) (k, (n, run)) =>
-      let (rows, yr, prevYear) := acc
-      let y := n.f.ev.ts.year
-      let yr := if y ≠ prevYear then
-          (if yr.any (·.1 == (c.asset, y)) then yr.map (fun p => if p.1 == (c.asset, y) then (p.1, dStart + k + 1) else p)
-           else yr ++ [((c.asset, y), dStart + k + 1)]) else yr
-      let row := RRow.taxD c.asset (dStart + k + 1) n.f.ev.row (n.f.lot.map (·.row)) (ofUnits n.f.amt) run n.f.gain (n.f.isLong period)
-        (lookupI n.f.ev.row txRow) (n.f.lot.bind (fun l => lookupI l.row txRow)) (n.evK + 1) n.evN (n.lotK.map (· + 1)) n.lotN
-      (rows ++ [row], yr, y)) ([], st.yearRow, 0)
+  let shownFr := c.fracs.zip c.fracRun
+  let dRows := ((List.range c.fracs.length).zip shownFr).map fun (k, (n, run)) =>
+    RRow.taxD c.asset (dStart + k + 1) n.f.ev.row (n.f.lot.map (·.row)) (ofUnits n.f.amt) run n.f.gain (n.f.isLong period)
+      (lookupI n.f.ev.row txRow) (n.f.lot.bind (fun l => lookupI l.row txRow)) (n.evK + 1) n.evN (n.lotK.map (· + 1)) n.lotN
+  let yearRow := yearRowsFrom c.asset dStart 0 0 st.yearRow (shownFr.map (·.1.f.ev.ts.year))
   -- Summary sheet: one line per yearly line, linked to the first detail row of that year when there is one
-  let linkOfYear (y : Int) : Option Nat := (yearRow.find? (·.1 == (c.asset, y))).map (·.2)
+  let linkOfYear (y : Int) : Option Nat := aget yearRow (c.asset, y)
   let sRows := (List.range nY).zip c.yearly |>.map fun (k, (key, _)) =>
     RRow.summ (st.summaryRow + k + 1) c.asset key.year key.typ.name key.long (linkOfYear key.year)
   { rows := inRows.map (·.1) ++ outRows.map (·.1) ++ xRows.map (·.1) ++ yRows ++ bRows ++ tRows ++ [RRow.taxP c.asset (pRow + 1) c.price] ++ dRows ++ sRows,
